@@ -304,45 +304,63 @@ def run_plasticity(col):
                 a[i, j] = a[j, i]
         return a
 
-    for case in ("plastic", "elastic"):
-        de, en, sn = symm("de"), symm("en"), symm("sn")
-        alpha = symarray("alpha", (1, 1), positive=True)
-        ep = symm("ep")
-        zeta = [alpha.copy(), ep.copy()]
-        z0 = [alpha.copy(), ep.copy()]
+    def symm(name, nq=2):  # noqa
+        a = symarray(name, (3, 3, nq, 1))
+        for i in range(3):
+            for j in range(i):
+                a[i, j] = a[j, i]
+        return a
 
-        def oracle(a, b, op, case=case):
+    # two quadrature points evaluated in one call; each combination of (yields, does not yield): the update of one point must not
+    # depend on whether the *other* point yields (the masked update)
+    for cases in (("plastic", "plastic"), ("elastic", "elastic"), ("plastic", "elastic"), ("elastic", "plastic")):
+        de, en, sn = symm("de"), symm("en"), symm("sn")
+        alpha = symarray("alpha", (1, 2, 1), positive=True)[0]  # the model receives it with a leading axis of length one
+        ep = symm("ep")
+        zeta = [alpha.copy()[None], ep.copy()]
+
+        def oracle(a, b, op, cases=cases):
             if op == ">" and b.is_const() and b.const_value() == 0:
-                return case == "plastic"
+                txt = str(a)
+                in0, in1 = "alpha[0,0,0]" in txt, "alpha[0,1,0]" in txt
+                if in0 != in1:
+                    return cases[0 if in0 else 1] == "plastic"
             return None
 
         ring.ORDER_ORACLE[0] = oracle
         try:
-            dsde, sig, znew = it.call(f, [de, en, sn, zeta], {"λ": lam, "μ": mu, "σy": sy, "K": K, "tangent": False})
+            dsde, sig, znew = it.call(f, [de, en, sn, zeta], {"λ": lam, "μ": mu, "σy": sy, "K": K, "tangent": True})
         finally:
             ring.ORDER_ORACLE[0] = None
         sig = npmodel.to_obj(sig)
-        tr = sum((sig[i, i, 0, 0] for i in range(3)), ZERO)
-        s = [[sig[i, j, 0, 0] - (tr * Fraction(1, 3) if i == j else ZERO) for j in range(3)] for i in range(3)]
-        ss = sum((s[i][j] * s[i][j] for i in range(3) for j in range(3)), ZERO)
-        a_new = P(npmodel.to_obj(znew[0])[0, 0])
-        if case == "plastic":
-            # |s_new| == sqrt(2/3) (sy + K alpha_new)   <=>   s:s == 2/3 (sy + K alpha_new)^2 and the right side is the positive root
-            okk = is_zero(ring.cancel(ss) - Fraction(2, 3) * (sy + K * a_new) ** 2)
-            col.add("C15.O6", "radial return yield condition", "after a plastic update the stress lies on the yield surface: |dev sigma| == sqrt(2/3) (sigma_y + K alpha_new)", okk,
-                    "s:s - 2/3 (sy + K alpha)^2 != 0")
-            # increment of alpha
-            sig_tr = sn + 2 * mu * de
-            ttr = sum((sn[i, i, 0, 0] + 2 * mu * de[i, i, 0, 0] + lam * sum((de[k, k, 0, 0] for k in range(3)), ZERO) for i in range(3)), ZERO)
-            strial = [[sn[i, j, 0, 0] + 2 * mu * de[i, j, 0, 0] + ((lam * sum((de[k, k, 0, 0] for k in range(3)), ZERO)) if i == j else ZERO) - (ttr * Fraction(1, 3) if i == j else ZERO) for j in range(3)] for i in range(3)]
-            nrm = ring.power(sum((strial[i][j] ** 2 for i in range(3) for j in range(3)), ZERO), Fraction(1, 2))
-            fy = nrm - ring.power(P(Fraction(2, 3)), Fraction(1, 2)) * (sy + K * alpha[0, 0])
-            dgamma = fy * ring.inv(2 * mu + Fraction(2, 3) * K)
-            okk = is_zero(a_new - alpha[0, 0] - ring.power(P(Fraction(2, 3)), Fraction(1, 2)) * dgamma)
-            col.add("C15.O6", "radial return hardening variable", "alpha_new - alpha == sqrt(2/3) dgamma with dgamma = f / (2 mu + 2K/3): positive for f > 0, mu > 0, K >= 0 (never decreases)", okk)
-        else:
-            okk = is_zero(a_new - alpha[0, 0]) and all(is_zero(P(a) - P(b)) for a, b in zip(npmodel.to_obj(znew[1]).reshape(-1), ep.reshape(-1)))
-            col.add("C15.O6", "elastic step keeps the plastic state", "without yielding the equivalent plastic strain and the plastic strain are unchanged", okk)
+        dsde = npmodel.to_obj(dsde)
+        tag = "/".join(cases)
+        for q, case in enumerate(cases):
+            tr = sum((sig[i, i, q, 0] for i in range(3)), ZERO)
+            sdev = [[sig[i, j, q, 0] - (tr * Fraction(1, 3) if i == j else ZERO) for j in range(3)] for i in range(3)]
+            ss = sum((sdev[i][j] * sdev[i][j] for i in range(3) for j in range(3)), ZERO)
+            a_new = P(npmodel.to_obj(znew[0])[0, q, 0])
+            trde = sum((de[k, k, q, 0] for k in range(3)), ZERO)
+            trial = [[sn[i, j, q, 0] + 2 * mu * de[i, j, q, 0] + (lam * trde if i == j else ZERO) for j in range(3)] for i in range(3)]
+            if case == "plastic":
+                okk = is_zero(ring.cancel(ss) - Fraction(2, 3) * (sy + K * a_new) ** 2)
+                col.add("C15.O6", "radial return yield condition (points %s, point %d)" % (tag, q), "after a plastic update the stress lies on the yield surface: |dev sigma| == sqrt(2/3) (sigma_y + K alpha_new)", okk,
+                        "s:s - 2/3 (sy + K alpha)^2 != 0")
+                ttr = sum((trial[i][i] for i in range(3)), ZERO)
+                strial = [[trial[i][j] - (ttr * Fraction(1, 3) if i == j else ZERO) for j in range(3)] for i in range(3)]
+                nrm = ring.power(sum((strial[i][j] ** 2 for i in range(3) for j in range(3)), ZERO), Fraction(1, 2))
+                fy = nrm - ring.power(P(Fraction(2, 3)), Fraction(1, 2)) * (sy + K * alpha[q, 0])
+                dgamma = fy * ring.inv(2 * mu + Fraction(2, 3) * K)
+                okk = is_zero(a_new - alpha[q, 0] - ring.power(P(Fraction(2, 3)), Fraction(1, 2)) * dgamma)
+                col.add("C15.O6", "radial return hardening variable (points %s, point %d)" % (tag, q), "alpha_new - alpha == sqrt(2/3) dgamma with dgamma = f / (2 mu + 2K/3): positive for f > 0, mu > 0, K >= 0 (never decreases)", okk)
+            else:
+                okk = is_zero(a_new - alpha[q, 0]) and all(is_zero(P(a) - P(b)) for a, b in zip(npmodel.to_obj(znew[1])[:, :, q, 0].reshape(-1), ep[:, :, q, 0].reshape(-1)))
+                col.add("C15.O6", "elastic point keeps the plastic state (points %s, point %d)" % (tag, q), "a point that does not yield keeps its equivalent plastic strain and its plastic strain, whatever the other points do", okk,
+                        "constitution/small_strain/models/_linear_elastic_plastic_isotropic.py linear_elastic_plastic_isotropic_hardening: state of a non-yielding point changed")
+                oks = all(is_zero(P(sig[i, j, q, 0]) - trial[i][j]) for i in range(3) for j in range(3))
+                eye = lambda i, j: 1 if i == j else 0  # noqa
+                okt = all(is_zero(P(dsde[i, j, k, l, q, 0]) - (lam * eye(i, j) * eye(k, l) + 2 * mu * eye(i, k) * eye(j, l))) for i in range(3) for j in range(3) for k in range(3) for l in range(3))
+                col.add("C15.O6", "elastic point stress and tangent (points %s, point %d)" % (tag, q), "a point that does not yield returns the trial stress and the elastic tangent", oks and okt)
     # the committed state handed in through MaterialStrain is not modified (copies are taken in extract)
     from . import c03
     sub = type(col)()
